@@ -4,10 +4,12 @@ package main
 
 import (
 	"io/ioutil"
+	"net"
 	"net/http"
 	"net/http/httptest"
 	"strings"
 	"sync"
+	"time"
 )
 
 // received is what the upstream's HANDLER saw: r.Header after the server's own processing, r.Proto.
@@ -31,27 +33,78 @@ type hbackend struct {
 	seen  map[string][]received
 	Mode  string // "http", "https", "h2"
 	holds map[string]*hold
+	plans map[string]*plan
 }
 
 type hold struct{ entered, release chan struct{} }
 
+// plan is an upstream FAULT at one particular point, for the request with a given X-Verif-Id:
+//
+//	DropAfterRead  n: the first n attempts are read completely (and recorded), then the connection is
+//	                  closed without an answer — an instance rotating out, a crash, an idle reset
+//	DropBeforeBody n: the first n attempts are cut off after the header block, body unread (not recorded)
+//	Reset:            close with SO_LINGER 0 (RST) instead of FIN
+//	Slow:             answer only after this delay (the proxy's TimeoutHandler fires first)
+//	Status/RespHeader: answer with this status and these response headers (503 + Retry-After, 429, ...)
+type plan struct {
+	DropAfterRead  int
+	DropBeforeBody int
+	Reset          bool
+	Slow           time.Duration
+	Status         int
+	RespHeader     map[string]string
+}
+
 func newBackend(mode string) *hbackend {
-	b := &hbackend{seen: map[string][]received{}, holds: map[string]*hold{}, Mode: mode}
+	b := &hbackend{seen: map[string][]received{}, holds: map[string]*hold{}, plans: map[string]*plan{}, Mode: mode}
 	b.Srv = httptest.NewUnstartedServer(http.HandlerFunc(func(w http.ResponseWriter, r *http.Request) {
 		id := r.Header.Get("X-Verif-Id")
 		b.mu.Lock()
 		h := b.holds[id]
 		delete(b.holds, id)
+		var p plan
+		dropBefore, dropAfter := false, false
+		if pl := b.plans[id]; pl != nil {
+			p = *pl
+			if pl.DropBeforeBody > 0 {
+				pl.DropBeforeBody--
+				dropBefore = true
+			} else if pl.DropAfterRead > 0 {
+				pl.DropAfterRead--
+				dropAfter = true
+			}
+		}
 		b.mu.Unlock()
 		if h != nil {
 			close(h.entered)
 			<-h.release
 		}
+		if dropBefore {
+			dropConn(w, p.Reset)
+			return
+		}
 		body, _ := ioutil.ReadAll(r.Body)
 		b.mu.Lock()
 		b.seen[id] = append(b.seen[id], received{Proto: r.Proto, Method: r.Method, Host: r.Host, URI: r.RequestURI, Header: r.Header.Clone(), Body: body})
 		b.mu.Unlock()
-		w.WriteHeader(200)
+		if dropAfter {
+			dropConn(w, p.Reset)
+			return
+		}
+		if p.Slow > 0 {
+			select {
+			case <-time.After(p.Slow):
+			case <-r.Context().Done():
+			}
+		}
+		for k, v := range p.RespHeader {
+			w.Header().Set(k, v)
+		}
+		st := p.Status
+		if st == 0 {
+			st = 200
+		}
+		w.WriteHeader(st)
 		w.Write([]byte("backend"))
 	}))
 	switch mode {
@@ -64,6 +117,29 @@ func newBackend(mode string) *hbackend {
 		b.Srv.Start()
 	}
 	return b
+}
+
+// dropConn closes the connection under the handler without answering.
+func dropConn(w http.ResponseWriter, reset bool) {
+	hj, ok := w.(http.Hijacker)
+	if !ok {
+		panic(http.ErrAbortHandler) // h2: resets the stream
+	}
+	conn, _, err := hj.Hijack()
+	if err != nil {
+		panic(http.ErrAbortHandler)
+	}
+	if tc, ok := conn.(*net.TCPConn); ok && reset {
+		tc.SetLinger(0)
+	}
+	conn.Close()
+}
+
+// Plan registers a fault for the request with this id.
+func (b *hbackend) Plan(id string, p plan) {
+	b.mu.Lock()
+	b.plans[id] = &p
+	b.mu.Unlock()
 }
 
 func (b *hbackend) Hold(id string) *hold {
@@ -79,6 +155,7 @@ func (b *hbackend) Take(id string) []received {
 	defer b.mu.Unlock()
 	s := b.seen[id]
 	delete(b.seen, id)
+	delete(b.plans, id)
 	return s
 }
 
